@@ -222,9 +222,16 @@ class Repo:
             raise AnalysisError('package directory %s not found' % self.pkgdir)
         self.modules: Dict[str, Module] = {}
         self.consulted: Dict[str, str] = {}
+        parsed = {}
         for fn in sorted(os.listdir(self.pkgdir)):
             if fn.endswith('.py'):
-                self._load(fn)
+                parsed[fn] = self._parse(fn)
+        self.renamed_back: Dict[str, str] = {}
+        if os.environ.get('VERIF_NO_NORMALIZE') != '1':
+            from .renames import undo_renames
+            self.renamed_back = undo_renames({fn[:-3]: t[3] for fn, t in parsed.items()})
+        for fn in sorted(parsed):
+            self._load(fn, parsed[fn])
         for m in self.modules.values():
             self._resolve_bases(m)
         self.normalized_helpers = []
@@ -234,7 +241,7 @@ class Repo:
             self.normalize_stats = normalize_repo(self)
 
     # ---------------------------------------------------------------- loading
-    def _load(self, fn: str):
+    def _parse(self, fn: str):
         path = os.path.join(self.pkgdir, fn)
         with open(path, 'rb') as f:
             raw = f.read()
@@ -243,6 +250,10 @@ class Repo:
             tree = ast.parse(src, filename=path)
         except SyntaxError as exc:
             raise AnalysisError('cannot parse %s: %s' % (path, exc))
+        return path, raw, src, tree
+
+    def _load(self, fn: str, parsed=None):
+        path, raw, src, tree = parsed if parsed is not None else self._parse(fn)
         name = fn[:-3]
         m = Module(name, path, '%s/%s' % (PKG, fn), src, tree,
                    hashlib.sha256(raw).hexdigest())
@@ -353,9 +364,21 @@ class Repo:
         self.consulted[m.relpath] = m.sha256
         return m
 
+    def _moved(self, module: str, name: str):
+        """a module-level function / class that now lives in another module of the package and is imported under its old
+        name where it used to be defined (``from .fragmentation import fragment``): (new module, name) or None"""
+        m = self.modules.get(module)
+        imp = m.imports.get(name) if m is not None else None
+        if isinstance(imp, tuple) and len(imp) == 3 and imp[1] in self.modules and imp[1] != module:
+            return imp[1], imp[2]
+        return None
+
     def cls(self, module: str, name: str) -> ClassInfo:
         m = self.module(module)
         if name not in m.classes:
+            mv = self._moved(module, name)
+            if mv is not None and mv[1] in self.modules[mv[0]].classes:
+                return self.modules[mv[0]].classes[mv[1]]
             raise AnalysisError('class %s.%s not found' % (module, name))
         return m.classes[name]
 
@@ -379,6 +402,9 @@ class Repo:
             for p in parts[1:]:
                 cur = cur.nested.get(p) if cur else None
         if cur is None:
+            mv = self._moved(module, parts[0])
+            if mv is not None:
+                return self.func(mv[0], '.'.join([mv[1]] + parts[1:]))
             raise AnalysisError('function %s:%s not found' % (module, qualname))
         return cur
 
